@@ -262,6 +262,83 @@ def c14_bounded_store_evicts_right_after_the_store():
     return out
 
 
+def c06_callable_raising_when_called_and_check_then_read():
+    """C06: (a) the wrapped callable raises at the call (before any coroutine exists): nothing is cached, later calls
+    compute afresh instead of hanging; (b) a bounded store shared between threads loses an entry between a
+    membership test and the read: no KeyError from the cache's own bookkeeping."""
+    from aiuti.asyncio import threadsafe_async_cache
+    import collections
+
+    async def sc():
+        out = []
+        n = [0]
+
+        def validating(x):
+            n[0] += 1
+            if n[0] == 1:
+                raise ValueError('rejected at the call')
+
+            async def run():
+                return ('ok', x)
+            return run()
+        f = threadsafe_async_cache(validating)
+        try:
+            await f(1)
+            out.append('C06: the first call did not see the ValueError of its own invocation')
+        except ValueError:
+            pass
+        try:
+            r = await aio.wait_for(f(1), 200)
+            if r != ('ok', 1):
+                out.append('C06: call after a failed one returned %r' % (r,))
+        except BaseException as e:  # noqa
+            out.append('C06: the wrapped callable raised when it was called; a later call for the same key ended with '
+                       '%r instead of computing afresh (marker left behind)' % (e,))
+        return out
+    out = _run(sc)
+    if out:
+        return out
+
+    class LRU1(collections.OrderedDict):
+        hook = None
+
+        def __contains__(self, k):
+            r = collections.OrderedDict.__contains__(self, k)
+            h, LRU1.hook = LRU1.hook, None
+            if r and h is not None:
+                h()
+            return r
+
+        def __setitem__(self, k, v):
+            collections.OrderedDict.__setitem__(self, k, v)
+            while len(self) > 1:
+                self.popitem(last=False)
+    store = LRU1()
+
+    @threadsafe_async_cache(cache=store)
+    async def g(x):
+        return ('value-for', x)
+
+    def other_thread():
+        th = threading.Thread(target=lambda: aio.run(g(2)))
+        th.start()
+        th.join(20)
+    lp = aio.new_event_loop()
+    try:
+        lp.run_until_complete(g(1))
+        LRU1.hook = other_thread            # fires if the wrapper tests membership before it reads
+        r = lp.run_until_complete(aio.wait_for(g(1), 30))
+        if r != ('value-for', 1):
+            out.append('C06/C14: g(1) returned %r' % (r,))
+    except BaseException as e:  # noqa
+        out.append('C06: the entry vanished from the bounded shared store between the membership test and the read; '
+                   'the caller got %r from the cache\'s own bookkeeping' % (e,))
+    finally:
+        LRU1.hook = None
+        lp.close()
+    return out
+
+
 def c05_closed_computing_loop_is_taken_over():
     """C05: the computing loop is closed mid-computation; a caller on another loop takes the computation over
     instead of retrying for ever."""
@@ -596,6 +673,80 @@ def c08_foreign_thread_submission_restarts_the_quiet_period():
     return out
 
 
+def c03_falsy_arguments_and_zero_timeout():
+    """C03/C08: arguments that are falsy values (0, None, '', False) are arguments like any other; timeout=0 means
+    "call as soon as the burst is in", not "never"."""
+    from aiuti.asyncio import BufferAsyncCalls
+
+    async def sc():
+        loop = aio.get_running_loop()
+        out = []
+        for args in ([0], [None], ['', 0], [False, None], [0, 7]):
+            calls = []
+
+            async def func(a, calls=calls):
+                calls.append(set(a))
+            buf = BufferAsyncCalls(func, timeout=1)
+            for x in args:
+                buf(x)
+            try:
+                await aio.wait_for(buf.wait(), 50)
+            except BaseException as e:  # noqa
+                out.append('C03: wait() after submitting %r ended with %r' % (args, e))
+            got = set().union(*calls) if calls else set()
+            if got != set(args):
+                out.append('C03: submitted %r, the function received %r in %d calls (falsy arguments dropped)'
+                           % (args, got, len(calls)))
+            buf._waiting.cancel()
+            await aio.gather(buf._waiting, return_exceptions=True)
+            if out:
+                return out
+        calls = []
+
+        async def func0(a):
+            calls.append((round(loop.time(), 3), set(a)))
+        buf = BufferAsyncCalls(func0, timeout=0)
+        t0 = loop.time()
+        buf(1)
+        buf(2)
+        await aio.sleep(10)
+        if not calls or {1, 2} - set().union(*[a for _, a in calls]):
+            out.append('C08/C03: timeout=0: the function was not called within 10 virtual seconds of the burst '
+                       '(calls: %r)' % (calls,))
+        buf._waiting.cancel()
+        await aio.gather(buf._waiting, return_exceptions=True)
+        return out
+    return _run(sc)
+
+
+def c07_cancelled_while_the_function_runs_and_reports_it_differently():
+    """C07: the background task is cancelled while the wrapped function runs; the function reports the abort with
+    an exception of its own: the task still terminates."""
+    from aiuti.asyncio import BufferAsyncCalls
+
+    async def sc():
+        started = aio.Event()
+
+        async def func(args):
+            started.set()
+            try:
+                await aio.Event().wait()
+            except aio.CancelledError:
+                raise ConnectionError('upload aborted')
+        buf = BufferAsyncCalls(func, timeout=1)
+        buf(1)
+        await aio.wait_for(started.wait(), 50)
+        buf._waiting.cancel()
+        await _turns(50)
+        ok = buf._waiting.done()
+        if not ok:
+            buf._waiting.cancel()
+            return ['C07: the background task was cancelled while the wrapped function was running (which raised '
+                    'ConnectionError in response); 50 loop turns later it is still running: cancellation swallowed']
+        return []
+    return _run(sc)
+
+
 def c07_shutdown_while_a_flush_is_requested():
     """C07: the buffer's background task is cancelled (what loop shutdown does) around the moment a wait() asks
     for a flush: it always terminates."""
@@ -736,6 +887,114 @@ def c04_batch_size_lowered_while_assembling():
                        'answered (batches %r; processing loop: %r)' % (len(pending), [k for _, k in log], b._loop_task))
             for t in pending:
                 t.cancel()
+        return out
+    return _run(sc)
+
+
+def c04_batch_callable_raising_when_called_and_zero_batch_timeout():
+    """C04/C10: a batch callable that is not an async generator function and raises when called: every caller of
+    the batch gets that error; batch_timeout=0 hands an incomplete batch over at once; an eager batch callable is
+    not started before a concurrency slot is free."""
+    from aiuti.asyncio import AsyncBackgroundBatcher
+
+    async def sc():
+        loop = aio.get_running_loop()
+        out = []
+
+        def validating(batch):
+            batch = list(batch)
+            if any(a < 0 for _, a in batch):
+                raise ValueError('negative argument in the batch')
+
+            async def gen():
+                for k, a in batch:
+                    yield k, a * 2
+            return gen()
+        b = AsyncBackgroundBatcher(validating, max_batch_size=2, batch_timeout=1)
+        ts = [aio.ensure_future(b(3)), aio.ensure_future(b(-4))]
+        done, pending = await aio.wait(ts, timeout=100)
+        if pending:
+            out.append('C04: the batch callable raised when called; %d callers of that batch were never answered'
+                       % len(pending))
+            for t in pending:
+                t.cancel()
+        elif not all(isinstance(t.exception(), ValueError) for t in ts):
+            out.append('C04: the batch callable raised ValueError when called; callers got %r'
+                       % [t.exception() or t.result() for t in ts])
+        # batch_timeout = 0
+        log = []
+        b0 = AsyncBackgroundBatcher(_mk_batchfn(log, loop), max_batch_size=8, batch_timeout=0)
+        ts = [aio.ensure_future(b0(i)) for i in range(3)]
+        done, pending = await aio.wait(ts, timeout=100)
+        if pending:
+            out.append('C04/C10: batch_timeout=0, 3 calls, max_batch_size=8: still unanswered after 100 virtual seconds '
+                       '(batches handed over: %r)' % [k for _, k in log])
+            for t in pending:
+                t.cancel()
+        # eager callable and the concurrency limit
+        running = [0, 0]
+        gate = aio.Event()
+
+        def eager(batch):
+            batch = list(batch)
+            running[0] += 1
+            running[1] = max(running[1], running[0])
+
+            async def gen():
+                try:
+                    await gate.wait()
+                    for k, a in batch:
+                        yield k, a
+                finally:
+                    running[0] -= 1
+            return gen()
+        be = AsyncBackgroundBatcher(eager, max_batch_size=1, max_concurrent_batches=1, batch_timeout=0.1)
+        ts = [aio.ensure_future(be(i)) for i in range(3)]
+        await aio.sleep(5)
+        peak = running[1]
+        gate.set()
+        await aio.wait(ts, timeout=100)
+        if peak > 1:
+            out.append('C10: an eager batch callable was started %d times at once, max_concurrent_batches=1' % peak)
+        return out
+    return _run(sc)
+
+
+def c09_owner_cancelled_while_every_slot_is_busy():
+    """C09/C11: every batch slot is busy; an owner is cancelled while its request is still queued; the key is asked
+    for again: joiners of the cancelled owner are answered, no batch carries the key twice."""
+    from aiuti.asyncio import AsyncBackgroundBatcher
+
+    async def sc():
+        loop = aio.get_running_loop()
+        log, gate = [], aio.Event()
+        b = AsyncBackgroundBatcher(_mk_batchfn(log, loop, gate=gate), max_batch_size=4, max_concurrent_batches=1,
+                                   batch_timeout=1)
+        busy = aio.ensure_future(b('busy'))
+        await aio.sleep(3)                       # its batch holds the only slot (parked on the gate)
+        owner = aio.ensure_future(b('K'))
+        await _turns(3)
+        joiner = aio.ensure_future(b('K'))
+        await _turns(3)
+        owner.cancel()
+        await _turns(3)
+        again = aio.ensure_future(b('K'))
+        other = aio.ensure_future(b('z'))
+        await aio.sleep(3)
+        gate.set()
+        done, pending = await aio.wait([busy, joiner, again, other], timeout=500)
+        out = []
+        if pending:
+            out.append('C09: %d uncancelled callers were never answered after an owner was cancelled while all slots '
+                       'were busy (batches: %r)' % (len(pending), [k for _, k in log]))
+            for t in pending:
+                t.cancel()
+        for t, nm in ((joiner, 'K'), (again, 'K'), (other, 'z')):
+            if t in done and (t.exception() or t.result()[1] != nm):
+                out.append('C09: caller of %s got %r' % (nm, t.exception() or t.result()))
+        for _, keys in log:
+            if len(set(keys)) != len(keys):
+                out.append('C11: a batch carried a key twice: %r' % (keys,))
         return out
     return _run(sc)
 
@@ -990,6 +1249,70 @@ def c16_producer_far_ahead_of_the_consumer():
     return out
 
 
+def c16_debug_mode_and_reused_loop():
+    """C16: the bridges work under asyncio's debug mode (which checks thread affinity of loop calls) and a loop
+    supplied by the caller can be used for several bridges in a row."""
+    from aiuti.asyncio import to_sync_iter, to_async_iter
+    out = []
+
+    class Boom(Exception):
+        pass
+
+    def src():
+        yield 1
+        yield 2
+        yield 3
+        raise Boom('source failed')
+
+    async def consume():
+        got = []
+        try:
+            async for x in to_async_iter(src()):
+                got.append(x)
+        except Boom:
+            got.append('boom')
+        return got
+    try:
+        r = aio.run(aio.wait_for(consume(), 8), debug=True)
+        if r != [1, 2, 3, 'boom']:
+            out.append('C16: to_async_iter under debug mode delivered %r, expected 1, 2, 3 and then the source\'s error' % (r,))
+    except BaseException as e:  # noqa
+        out.append('C16: to_async_iter under asyncio debug mode ended with %r (nothing handed over: the hand-over is '
+                   'not thread-safe)' % (e,))
+
+    async def asrc(n, fail=False):
+        for i in range(n):
+            await aio.sleep(0)
+            yield i
+        if fail:
+            raise Boom('async source failed')
+    mine = aio.new_event_loop()
+    try:
+        for rnd, (n, fail) in enumerate(((4, False), (3, False), (2, True))):
+            box = []
+
+            def run(n=n, fail=fail):
+                try:
+                    box.append(list(to_sync_iter(asrc(n, fail), loop=mine)))
+                except Boom:
+                    box.append('boom')
+                except BaseException as e:  # noqa
+                    box.append(e)
+            th = threading.Thread(target=run, daemon=True)
+            th.start()
+            th.join(8)
+            want = 'boom' if fail else list(range(n))
+            if th.is_alive() or box != [want]:
+                out.append('C16: bridge #%d over one caller-supplied loop: %s (loop closed: %s)'
+                           % (rnd + 1, 'consumer never finished' if th.is_alive() else 'got %r, expected %r' % (box, want),
+                              mine.is_closed()))
+                break
+    finally:
+        if not mine.is_closed():
+            mine.close()
+    return out
+
+
 def c17_every_kind_of_awaitable_crosses_loops():
     """C17: ensure_aw / run_aw_threadsafe hand over exactly the awaitable's result or exception for every kind of
     awaitable (coroutine, Task, Future, object with __await__), evaluated on the target loop."""
@@ -1185,6 +1508,27 @@ def c20_every_kind_of_awaitable_and_failure():
             out.append('C20: gather_excs(<generator of 3 jobs, 0 and 2 failing>) yielded %r, jobs run %r' % (got, sorted(ran)))
         if out:
             return out
+        # what is yielded / raised is the failure object itself, also for a chained failure (`raise X from Y`), and
+        # cancelled children keep their place in the input order
+        root = OSError(5, 'disk')
+
+        async def chained():
+            try:
+                raise root
+            except OSError as e:
+                raise E1('chained') from e
+        got = [e async for e in gather_excs([chained()], only=E1)]
+        if len(got) != 1 or not isinstance(got[0], E1) or got[0].__cause__ is not root:
+            out.append('C20: gather_excs([fails with E1 raised from an OSError], only=E1) yielded %r' % (got,))
+        parked = aio.ensure_future(aio.sleep(3600))
+        await aio.sleep(0)
+        parked.cancel()
+        boom = E1('boom')
+        got = [e async for e in gather_excs([co(None), parked, co(boom)])]
+        if len(got) != 2 or not isinstance(got[0], aio.CancelledError) or got[1] is not boom:
+            out.append('C20: gather_excs([ok, cancelled child, failing]) yielded %r: not in input order' % (got,))
+        if out:
+            return out
         kinds = ('coroutine', 'task', 'future', 'custom')
         import itertools
         for combo in itertools.product(kinds, repeat=2):
@@ -1222,21 +1566,26 @@ SCENARIOS = {
     'C05': [c05_closed_computing_loop_is_taken_over, c05_stopped_computing_loop_recovery,
             c06_cancelled_waiter_ends_at_once],
     'C06': [c06_own_cancellation_together_with_a_foreign_one, c06_cancelled_waiter_ends_at_once,
-            c05_stopped_computing_loop_recovery, c14_bounded_store_evicts_right_after_the_store],
-    'C03': [c03_foreign_thread_submission_reaches_an_idle_loop, c03_function_failing_with_its_own_cancelled_error],
+            c05_stopped_computing_loop_recovery, c14_bounded_store_evicts_right_after_the_store,
+            c06_callable_raising_when_called_and_check_then_read],
+    'C03': [c03_foreign_thread_submission_reaches_an_idle_loop, c03_function_failing_with_its_own_cancelled_error,
+            c03_falsy_arguments_and_zero_timeout],
     'C04': [c04_burst_with_a_cancelled_caller, c04_owner_cancelled_then_same_key_again_in_the_open_batch,
-            c04_batch_size_lowered_while_assembling],
-    'C09': [c04_owner_cancelled_then_same_key_again_in_the_open_batch, c11_sharer_cancelled_while_pending],
-    'C10': [c15_options_form_equals_direct_form_batcher, c04_batch_size_lowered_while_assembling],
+            c04_batch_size_lowered_while_assembling, c04_batch_callable_raising_when_called_and_zero_batch_timeout],
+    'C09': [c04_owner_cancelled_then_same_key_again_in_the_open_batch, c11_sharer_cancelled_while_pending,
+            c09_owner_cancelled_while_every_slot_is_busy],
+    'C10': [c15_options_form_equals_direct_form_batcher, c04_batch_size_lowered_while_assembling,
+            c04_batch_callable_raising_when_called_and_zero_batch_timeout],
     'C11': [c11_sharer_cancelled_while_pending, c04_owner_cancelled_then_same_key_again_in_the_open_batch,
             c15_options_form_equals_direct_form_batcher],
     'C15': [c15_options_form_equals_direct_form_batcher, c15_options_form_cache_default],
-    'C16': [c16_producer_far_ahead_of_the_consumer],
+    'C16': [c16_producer_far_ahead_of_the_consumer, c16_debug_mode_and_reused_loop],
     'C17': [c17_every_kind_of_awaitable_crosses_loops, c17_idle_target_does_not_depend_on_the_default_executor],
     'C20': [c20_every_kind_of_awaitable_and_failure],
-    'C07': [c07_shutdown_while_a_flush_is_requested, c03_function_failing_with_its_own_cancelled_error],
+    'C07': [c07_shutdown_while_a_flush_is_requested, c03_function_failing_with_its_own_cancelled_error,
+            c07_cancelled_while_the_function_runs_and_reports_it_differently],
     'C08': [c08_wait_from_anywhere_without_flush, c03_function_failing_with_its_own_cancelled_error,
-            c08_foreign_thread_submission_restarts_the_quiet_period],
+            c08_foreign_thread_submission_restarts_the_quiet_period, c03_falsy_arguments_and_zero_timeout],
 }
 
 
